@@ -153,27 +153,35 @@ impl Writer {
 
 struct Reader<'a> {
     r: BufReader<&'a mut File>,
+    /// Number of bytes consumed so far.
+    ofs: u64,
     ids: IdMap,
     graph: &'a mut Graph,
     hashes: &'a mut Hashes,
 }
 
 impl<'a> Reader<'a> {
+    fn read_exact(&mut self, buf: &mut [u8]) -> std::io::Result<()> {
+        self.r.read_exact(buf)?;
+        self.ofs += buf.len() as u64;
+        Ok(())
+    }
+
     fn read_u16(&mut self) -> std::io::Result<u16> {
         let mut buf: [u8; 2] = [0; 2];
-        self.r.read_exact(&mut buf[..])?;
+        self.read_exact(&mut buf[..])?;
         Ok(u16::from_le_bytes(buf))
     }
 
     fn read_u24(&mut self) -> std::io::Result<u32> {
         let mut buf: [u8; 4] = [0; 4];
-        self.r.read_exact(&mut buf[..3])?;
+        self.read_exact(&mut buf[..3])?;
         Ok(u32::from_le_bytes(buf))
     }
 
     fn read_u64(&mut self) -> std::io::Result<u64> {
         let mut buf: [u8; 8] = [0; 8];
-        self.r.read_exact(&mut buf)?;
+        self.read_exact(&mut buf)?;
         Ok(u64::from_le_bytes(buf))
     }
 
@@ -183,7 +191,7 @@ impl<'a> Reader<'a> {
 
     fn read_str(&mut self, len: usize) -> std::io::Result<String> {
         let mut buf = vec![0; len];
-        self.r.read_exact(buf.as_mut_slice())?;
+        self.read_exact(buf.as_mut_slice())?;
         Ok(unsafe { String::from_utf8_unchecked(buf) })
     }
 
@@ -255,50 +263,77 @@ impl<'a> Reader<'a> {
         Ok(())
     }
 
-    fn read_signature(&mut self) -> anyhow::Result<()> {
+    /// Reads the file header.  Returns false if the file ends within it, as
+    /// happens when n2 was killed while creating the database.
+    fn read_signature(&mut self) -> anyhow::Result<bool> {
         let mut buf: [u8; 4] = [0; 4];
-        self.r.read_exact(&mut buf[..])?;
+        match self.read_exact(&mut buf[..]) {
+            Ok(()) => {}
+            Err(err) if err.kind() == std::io::ErrorKind::UnexpectedEof => return Ok(false),
+            Err(err) => bail!(err),
+        }
         if buf.as_slice() != "n2db".as_bytes() {
             bail!("invalid db signature");
         }
-        self.r.read_exact(&mut buf[..])?;
+        match self.read_exact(&mut buf[..]) {
+            Ok(()) => {}
+            Err(err) if err.kind() == std::io::ErrorKind::UnexpectedEof => return Ok(false),
+            Err(err) => bail!(err),
+        }
         let version = u32::from_le_bytes(buf);
         if version != VERSION {
             bail!("db version mismatch: got {version}, expected {VERSION}; TODO: db upgrades etc");
         }
-        Ok(())
+        Ok(true)
     }
 
-    fn read_file(&mut self) -> anyhow::Result<()> {
-        self.read_signature()?;
+    /// Reads one record.
+    fn read_record(&mut self) -> std::io::Result<()> {
+        let mut len = self.read_u16()?;
+        let mask = 0b1000_0000_0000_0000;
+        if len & mask == 0 {
+            self.read_path(len as usize)
+        } else {
+            len &= !mask;
+            self.read_build(len as usize)
+        }
+    }
+
+    /// Reads the whole file.  Returns the length of its valid part: the file
+    /// may end in a partially written record if n2 was killed while appending
+    /// to it, in which case everything before that record is still good.
+    fn read_file(&mut self) -> anyhow::Result<u64> {
+        if !self.read_signature()? {
+            return Ok(0);
+        }
+        let mut valid_len = self.ofs;
         loop {
-            let mut len = match self.read_u16() {
-                Ok(r) => r,
+            match self.read_record() {
+                Ok(()) => valid_len = self.ofs,
                 Err(err) if err.kind() == std::io::ErrorKind::UnexpectedEof => break,
                 Err(err) => bail!(err),
-            };
-            let mask = 0b1000_0000_0000_0000;
-            if len & mask == 0 {
-                self.read_path(len as usize)?;
-            } else {
-                len &= !mask;
-                self.read_build(len as usize)?;
             }
         }
-        Ok(())
+        Ok(valid_len)
     }
 
     /// Reads an on-disk database, loading its state into the provided Graph/Hashes.
-    fn read(f: &mut File, graph: &mut Graph, hashes: &mut Hashes) -> anyhow::Result<IdMap> {
+    /// Also returns the length of the valid part of the file.
+    fn read(
+        f: &mut File,
+        graph: &mut Graph,
+        hashes: &mut Hashes,
+    ) -> anyhow::Result<(IdMap, u64)> {
         let mut r = Reader {
             r: std::io::BufReader::new(f),
+            ofs: 0,
             ids: IdMap::default(),
             graph,
             hashes,
         };
-        r.read_file()?;
+        let valid_len = r.read_file()?;
 
-        Ok(r.ids)
+        Ok((r.ids, valid_len))
     }
 }
 
@@ -310,8 +345,15 @@ pub fn open(path: &Path, graph: &mut Graph, hashes: &mut Hashes) -> anyhow::Resu
         .open(path)
     {
         Ok(mut f) => {
-            let ids = Reader::read(&mut f, graph, hashes)?;
-            Ok(Writer::from_opened(ids, f))
+            let (ids, valid_len) = Reader::read(&mut f, graph, hashes)?;
+            // Drop any partially written record at the end of the file so that
+            // the records we append follow the last complete one.
+            f.set_len(valid_len)?;
+            let mut w = Writer::from_opened(ids, f);
+            if valid_len == 0 {
+                w.write_signature()?;
+            }
+            Ok(w)
         }
         Err(err) if err.kind() == std::io::ErrorKind::NotFound => {
             let w = Writer::create(path)?;
